@@ -124,6 +124,26 @@ class MemoPattern:
     guard_if: ast.If = None
 
 
+def _dirty_flag_of(test: ast.AST, me: str) -> Optional[str]:
+    """`self.<flag>` or `self.<flag> or <size heuristics>`: extra disjuncts that only compare lengths can trigger additional recomputations but
+    can never stand in for the flag (an in-place replacement keeps every length), so the flag remains the invalidation mechanism that M1 checks"""
+    a = self_attr(test, me)
+    if a is not None:
+        return a
+    if isinstance(test, ast.BoolOp) and isinstance(test.op, ast.Or) and test.values:
+        flag = self_attr(test.values[0], me)
+        if flag is None:
+            return None
+
+        def is_len(e):
+            return isinstance(e, ast.Call) and isinstance(e.func, ast.Name) and e.func.id == "len"
+        for v in test.values[1:]:
+            if not (isinstance(v, ast.Compare) and len(v.ops) == 1 and is_len(v.left) and is_len(v.comparators[0])):
+                return None
+        return flag
+    return None
+
+
 def find_dirty_flag_memo(r: Resolver, ci: ClassInfo) -> List[MemoPattern]:
     out = []
     for nm, f in ci.methods.items():
@@ -131,8 +151,8 @@ def find_dirty_flag_memo(r: Resolver, ci: ClassInfo) -> List[MemoPattern]:
         if me is None:
             continue
         for st in f.node.body:
-            if isinstance(st, ast.If) and self_attr(st.test, me) is not None and not st.orelse:
-                flag = self_attr(st.test, me)
+            if isinstance(st, ast.If) and _dirty_flag_of(st.test, me) is not None and not st.orelse:
+                flag = _dirty_flag_of(st.test, me)
                 caches, srcs, clears = [], set(), False
                 for s2 in st.body:
                     if isinstance(s2, ast.Assign) and len(s2.targets) == 1:
@@ -512,6 +532,36 @@ def check_who_member_map(ctx: CheckContext, r: Resolver, ci: ClassInfo, member_m
                                      f"(no renaming loop or unique-key helper precedes the call): an existing member with that key is overwritten")
     if inserter is None:
         raise AnalysisError(f"{ci.name}: no insert method with a key-clash renaming loop found (anchor vanished)")
+    # the insert really inserts: no early return that is decided by looking at the members already stored
+    me_i = self_name(inserter)
+    store_lines = [st.lineno for st in body_nodes(inserter) if isinstance(st, ast.stmt)
+                   and any(fld == member_map and how == "subscript-store" for (fld, how, _n) in field_writes_in_stmt(st, me_i))]
+
+    def _returns(stmts, tests):
+        for st in stmts:
+            if isinstance(st, ast.Return):
+                yield st, tests
+            elif isinstance(st, (ast.If, ast.While)):
+                yield from _returns(st.body, tests + [st.test])
+                yield from _returns(st.orelse, tests + [st.test])
+            elif isinstance(st, (ast.For, ast.With, ast.Try)):
+                for blk in ("body", "orelse", "finalbody"):
+                    yield from _returns(getattr(st, blk, []) or [], tests)
+                for h in getattr(st, "handlers", []) or []:
+                    yield from _returns(h.body, tests)
+    if store_lines and me_i is not None:
+        n_ret = 0
+        for ret, tests in _returns(inserter.node.body, []):
+            if ret.lineno >= min(store_lines):
+                continue
+            looks = [t for t in tests if member_map in fields_read(t, me_i)]
+            n_ret += 1
+            ctx.ob(rule + "-ALWAYS", f"{inserter.qualname}:early-return:{norm_stmt(ret)}:{ast.unparse(tests[-1])[:60] if tests else ''}",
+                   f"{inserter.module.relpath}:{ret.lineno}", not looks,
+                   "" if not looks else f"{ci.name}.{inserter.name} returns without storing the new member when `{ast.unparse(looks[-1])[:80]}`: "
+                                        f"a distinct record that looks like a stored one (same key / equal values) is silently dropped")
+        if n_ret == 0:
+            ctx.ob(rule + "-ALWAYS", f"{inserter.qualname}:no-early-return", inserter.loc, True, "")
     # callers inside the class must keep overwrite prevention on
     flag = None
     for a in inserter.pos_params + inserter.kwonly_params:
